@@ -143,3 +143,7 @@ package respondent
 //@
 //@ func (*context).SendMsg
 //@   before select#1 assert selwaits(p.closeQ) && selsends(p.sendQ)
+//@
+//@ func (*context).SendMsg
+//@   ensures sel("select#1") >= 0 ==> c.backtrace == at("select#1", c.backtrace) && c.recvPipe == at("select#1", c.recvPipe)
+//@   before select#1 assert c.recvPipe == nil && len(c.backtrace) == 0
